@@ -53,11 +53,12 @@ type FuncContract struct {
 	Asserts    []PointAssert
 	Trusted    bool
 	Inline     bool
-	Terminates bool            // termination obligations: loop measures and recursion measure
-	Decreases  *Clause         // function-level measure for (self-)recursive calls
-	GhostSets  []GhostSet      // ghost assignments performed on entry (specification state updated by this function)
-	OwnReads   []string        // heap key prefixes: plain loads from these keys must read objects allocated by this activation
-	AtomicOnly []string        // captured variables of a goroutine body that may only be accessed through sync/atomic: no plain load or store may touch their cell
+	Terminates bool       // termination obligations: loop measures and recursion measure
+	Decreases  *Clause    // function-level measure for (self-)recursive calls
+	GhostSets  []GhostSet // ghost assignments performed on entry (specification state updated by this function)
+	OwnReads   []string   // heap key prefixes: plain loads from these keys must read objects allocated by this activation
+	AtomicOnly []string   // captured variables of a goroutine body that may only be accessed through sync/atomic: no plain load or store may touch their cell
+	PointSets  []PointSet
 	OwnWrites  []string        // heap key prefixes: stores into these keys must target objects allocated by this activation
 	Calls      []string        // parameters holding functions the callee may invoke: their write sets are added at call sites
 	Reveal     map[string]bool // opaque spec functions unfolded while verifying this function
@@ -65,6 +66,13 @@ type FuncContract struct {
 	Safety     bool            // generate bounds/nil/div obligations
 	File       string
 	Line       int
+}
+
+// PointSet: a ghost assignment at a program point (after a call made by the function's own body).
+type PointSet struct {
+	Callee string
+	Ord    int
+	Set    GhostSet
 }
 
 type GhostSet struct {
@@ -326,6 +334,25 @@ func (cs *ContractSet) parseFile(path string, defaultPkg string) error {
 		case "ghostset":
 			if cur == nil {
 				return fmt.Errorf("%s:%d: ghostset outside func", path, it.line)
+			}
+			if m := regexp.MustCompile(`^after call (\S+?)(?:#(\d+|\*))?\s*:\s*([A-Za-z_][A-Za-z0-9_]*)\s*=\s*(.*)$`).FindStringSubmatch(it.text); m != nil {
+				// program-point ghost update: executed in the verified function right after the matching calls of its own body
+				ord := 0
+				if m[2] == "*" {
+					ord = -1
+				} else if m[2] != "" {
+					ord, _ = strconv.Atoi(m[2])
+				}
+				callee := m[1]
+				if !strings.Contains(callee, ".") {
+					callee = pkg + "." + callee
+				}
+				e, err := ParseExpr(m[4])
+				if err != nil {
+					return fmt.Errorf("%s:%d: %v", path, it.line, err)
+				}
+				cur.PointSets = append(cur.PointSets, PointSet{Callee: callee, Ord: ord, Set: GhostSet{Var: m[3], E: e, Text: it.text}})
+				break
 			}
 			i := strings.Index(it.text, "=")
 			if i < 0 {
